@@ -40,6 +40,22 @@ fn main() {
                 let (fp, pr, fneg) = tiny::fp_measure(&mut rng, n, p, probes);
                 out.line(&format!("fp n={} p={} probes={} false_pos={} false_neg={}", n, p, pr, fp, fneg));
             }
+            // structured families: hashes that differ only in their high bits, only in their low bits,
+            // and plain small integers (what `TransparentKeyBuilder` feeds the doorkeeper); `n` members
+            // are added, every other member of the family is probed
+            for &(n, p) in &[(50usize, 0.01f64), (1000, 0.01), (10_000, 0.01), (2000, 0.05), (500, 0.001)] {
+                let c_lo = rng.next() & 0xffff_ffff;
+                let c_hi = rng.next() & 0xffff_ffff_0000_0000;
+                let fams: Vec<(&str, u64, Box<dyn Fn(u64) -> u64>)> = vec![
+                    ("high16", 1 << 16, Box::new(move |j| (j << 48) | c_lo)),
+                    ("low16", 1 << 16, Box::new(move |j| c_hi | j)),
+                    ("ints", 1 << 17, Box::new(move |j| j)),
+                ];
+                for (name, uni, make) in fams.iter() {
+                    let (fp, pr, fneg) = tiny::fp_family(&mut rng, n, p, *uni, make.as_ref());
+                    out.line(&format!("fpfam family={} n={} p={} probes={} false_pos={} false_neg={} c_lo={} c_hi={}", name, n, p, pr, fp, fneg, c_lo, c_hi));
+                }
+            }
         }
         // C01, C07: policy lives
         "policy" => {
